@@ -163,6 +163,9 @@ func _yieldUnmarshalMachinePtrForAtlasEntry(row *unmarshalSlabRow, entry *atlas.
 	case entry.UnionKeyedMorphism != nil:
 		row.unmarshalMachineUnionKeyed.cfg = entry.UnionKeyedMorphism
 		return &row.unmarshalMachineUnionKeyed
+	case entry.MapMorphism != nil:
+		// Key ordering only matters when marshalling; reading is the plain map machine.
+		return &row.unmarshalMachineMapStringWildcard
 	default:
 		panic("invalid atlas entry")
 	}
